@@ -77,7 +77,9 @@ CHECKS = {
         'AQT R / MS / Z) and the little-endian outcome encoding. Props.C17: exact kernel-decided identities of the QIS gates in Q(zeta_8) (matrices of h, y, t, v; '
         'v*v = x, v*vi = 1, s*s = z, t*t = s, h*h = 1, rx(pi) = -iX, ry(pi), rz(pi), rx(pi/2)^2 = rx(pi), v = e^{i pi/4} rx(pi/2), xx/yy/zz(pi) = -i P(x)P; an unknown '
         'name is an error) and, for every register width and outcome, decoding the little-endian integer of a bit assignment returns the assignment and conversely '
-        '(C17_leBits_leValue, C17_leValue_leBits: every outcome goes to the right qubit). T2: the payload produced by cirq_ionq.Serializer (QIS and native gate sets, '
+        '(C17_leBits_leValue, C17_leValue_leBits: every outcome goes to the right qubit). Props.C17b: the QIS gates the serializer writes for X / Y / Z / XX / YY / ZZ powers (rx, ry, rz, xx, yy, zz at '
+        'rotation pi*t), evaluated symbolically with the vendor definitions, equal the documented Cirq matrices with global shift -1/2 for EVERY exponent (C17_rule_*; any commutative ring with a lawful phase '
+        'map, instantiated for C in NonVacuity/ComplexModel); the rule stream checks that the serializer writes exactly those names and rotations. T2: the payload produced by cirq_ionq.Serializer (QIS and native gate sets, '
         'single and many-circuit jobs) and by the AQT sampler\'s JSON generator is interpreted gate by gate with those definitions by the compiled Lean interpreter '
         'and compared, up to global phase, with the Lean ordered product of the circuit\'s operation matrices (C01); measurement metadata is compared with the keys and '
         'targets of the circuit; cirq_ionq.Job.results().to_cirq_result() on little-endian histograms (QPU and simulator) is compared with the model of the encoding.',
